@@ -391,6 +391,257 @@ def l4(prog: Program, chk: Check) -> None:
             f"{a}" if a == b else f"correlation: {a} vs eta_function: {b}")
 
 
+# --------------------------------------------------------------------- L5
+class TauExpr:
+    """sum of  coef * tau^n * exp(kappa * tau)  with tau-free polynomial coef / kappa
+    over the symbols W (frequency), I (imaginary unit, I^2 = -1), J (spectral density),
+    EXP[..] / INV[..] (opaque tau-free exponentials / reciprocals)."""
+
+    def __init__(self, terms=None):
+        self.terms = {}
+        for (k, n), c in (terms or {}).items():
+            c = _reduce_i(c)
+            if c.terms:
+                self.terms[(k, n)] = c
+
+    @staticmethod
+    def const(p: Poly):
+        return TauExpr({(Poly(), 0): p})
+
+    def __add__(self, o):
+        t = dict(self.terms)
+        for key, c in o.terms.items():
+            t[key] = t.get(key, Poly()) + c
+        return TauExpr(t)
+
+    def __neg__(self):
+        return TauExpr({k: -c for k, c in self.terms.items()})
+
+    def __sub__(self, o):
+        return self + (-o)
+
+    def __mul__(self, o):
+        t = {}
+        for (k1, n1), c1 in self.terms.items():
+            for (k2, n2), c2 in o.terms.items():
+                key = (_reduce_i(k1 + k2), n1 + n2)
+                t[key] = t.get(key, Poly()) + c1 * c2
+        return TauExpr(t)
+
+    def tau_free(self) -> Optional[Poly]:
+        if all(k == Poly() and n == 0 for (k, n) in self.terms):
+            return self.terms.get((Poly(), 0), Poly())
+        return None
+
+    def d_tau(self):
+        t = {}
+        for (k, n), c in self.terms.items():
+            if n > 0:
+                key = (k, n - 1)
+                t[key] = t.get(key, Poly()) + c * Poly.const(n)
+            if k.terms:
+                key = (k, n)
+                t[key] = t.get(key, Poly()) + c * k
+        return TauExpr(t)
+
+    def is_zero(self) -> bool:
+        return not self.terms
+
+    def __repr__(self):
+        return " + ".join(f"({c})*tau^{n}*exp(({k})*tau)" for (k, n), c in self.terms.items()) or "0"
+
+
+def _reduce_i(p: Poly) -> Poly:
+    out = Poly()
+    for m, c in p.terms.items():
+        coef = Fraction(c)
+        rest = []
+        for (sym, pw) in m:
+            if sym == "I":
+                r = pw % 4
+                if r in (2, 3):
+                    coef = -coef
+                if r in (1, 3):
+                    rest.append(("I", 1))
+            else:
+                rest.append((sym, pw))
+        out = out + Poly({tuple(sorted(rest)): coef})
+    return out
+
+
+def _tau_expr(e: ast.AST) -> Optional[TauExpr]:
+    if isinstance(e, ast.Constant):
+        if isinstance(e.value, complex):
+            if e.value.real == 0:
+                return TauExpr.const(Poly.sym("I") * Poly.const(Fraction(str(e.value.imag))))
+            return None
+        if isinstance(e.value, (int, float)) and not isinstance(e.value, bool):
+            return TauExpr.const(Poly.const(Fraction(str(e.value))))
+        return None
+    if isinstance(e, ast.Name):
+        if e.id == "tau":
+            return TauExpr({(Poly(), 1): Poly.const(1)})
+        if e.id == "w":
+            return TauExpr.const(Poly.sym("W"))
+        return None
+    d = dotted(e)
+    if d == "self.temperature":
+        return TauExpr.const(Poly.sym("T"))
+    if isinstance(e, ast.UnaryOp) and isinstance(e.op, ast.USub):
+        v = _tau_expr(e.operand)
+        return None if v is None else -v
+    if isinstance(e, ast.UnaryOp) and isinstance(e.op, ast.UAdd):
+        return _tau_expr(e.operand)
+    if isinstance(e, ast.Call):
+        fn = dotted(e.func) or ""
+        if fn == "self._spectral_density":
+            return TauExpr.const(Poly.sym("J"))
+        if fn.split(".")[-1] == "exp" and len(e.args) == 1:
+            a = _tau_expr(e.args[0])
+            if a is None:
+                return None
+            const = Poly()
+            lin = Poly()
+            for (k, n), c in a.terms.items():
+                if k.terms or n > 1:
+                    return None
+                if n == 0:
+                    const = const + c
+                else:
+                    lin = lin + c
+            coef = Poly.const(1) if not const.terms else Poly.sym(f"EXP[{const!r}]")
+            return TauExpr({(_reduce_i(lin), 0): coef})
+        return None
+    if isinstance(e, ast.BinOp):
+        if isinstance(e.op, ast.Pow):
+            b = _tau_expr(e.left)
+            if b is None or not isinstance(e.right, ast.Constant) or \
+                    not isinstance(e.right.value, int) or not 0 <= e.right.value <= 4:
+                return None
+            out = TauExpr.const(Poly.const(1))
+            for _ in range(e.right.value):
+                out = out * b
+            return out
+        a, b = _tau_expr(e.left), _tau_expr(e.right)
+        if a is None or b is None:
+            return None
+        if isinstance(e.op, ast.Add):
+            return a + b
+        if isinstance(e.op, ast.Sub):
+            return a - b
+        if isinstance(e.op, ast.Mult):
+            return a * b
+        if isinstance(e.op, ast.Div):
+            den = b.tau_free()
+            if den is None:
+                return None
+            inv = Poly.const(1).div(den)
+            if inv is None:
+                inv = Poly.sym(f"INV[{den!r}]")
+                _INV_TABLE[f"INV[{den!r}]"] = den
+            return a * TauExpr.const(inv)
+    return None
+
+
+_INV_TABLE: Dict[str, Poly] = {}
+
+
+def _clear_inv(p: Poly, table: Dict[str, Poly]) -> Poly:
+    """Multiply p by the denominators of its INV[..] symbols (INV[d] * d = 1)."""
+    invs = sorted({sym for m in p.terms for (sym, pw) in m if sym.startswith("INV[")})
+    out = p
+    for inv in invs:
+        den = table.get(inv)
+        if den is None:
+            return p
+        new = Poly()
+        for m, c in out.terms.items():
+            pw = dict(m).get(inv, 0)
+            rest = tuple((s_, q) for (s_, q) in m if s_ != inv)
+            term = Poly({rest: c})
+            if pw == 0:
+                term = term * den
+            elif pw == 1:
+                pass
+            else:
+                return p
+            new = new + term
+        out = new
+    return out
+
+
+def _integrands(u: Unit) -> Dict[str, ast.AST]:
+    """branch label -> integrand expression of the nested `integrand(w)` definitions."""
+    out = {}
+    for fn in [x for x in ast.walk(u.node) if isinstance(x, ast.FunctionDef) and x.name == "integrand"]:
+        ctx = branch_context(u.node, fn)
+        zero_t = any(br for (t, br) in ctx if "temperature" in norm(t) and "== 0" in norm(t))
+        label0 = "T=0" if zero_t else "T>0"
+        rets = [x for x in ast.walk(fn) if isinstance(x, ast.Return)]
+        assigns = [x for x in ast.walk(fn) if isinstance(x, ast.Assign)]
+        if not assigns and len(rets) == 1:
+            out[label0] = rets[0].value
+            continue
+        for a in assigns:
+            c2 = branch_context(fn, a)
+            guard = [br for (t, br) in c2 if "finfo" in norm(t) or "eps" in norm(t)]
+            if len(guard) == 1:
+                out[f"{label0}/{'guarded' if guard[0] else 'overflow'}"] = a.value
+    return out
+
+
+def l5(prog: Program, chk: Check) -> None:
+    chk.rule("L5", "sibling cross-check of the integrand builders: in every branch (T = 0, thermal, "
+             "thermal beyond the overflow guard) the second tau-derivative of eta_function's "
+             "integrand equals minus the integrand of correlation() (eta_function returns "
+             "-integral, so eta'' = C term by term)", floor=3)
+    cu = prog.unit(f"{BC}:CustomSD.correlation")
+    eu = prog.unit(f"{BC}:CustomSD.eta_function")
+    ci, ei = _integrands(cu), _integrands(eu)
+    chk.saw(cu)
+    chk.saw(eu)
+    if len(ci) < 3 and len(ei) < 3:
+        raise AnalysisError(f"L5: integrand branches vanished: correlation {sorted(ci)}, "
+                            f"eta_function {sorted(ei)}")
+    if set(ci) != set(ei):
+        chk.add("L5", eu, f"integrand branches: correlation {sorted(ci)} vs eta_function "
+                f"{sorted(ei)}", False,
+                "the two integrand builders no longer distinguish the same cases (T = 0, thermal, "
+                "thermal beyond the overflow guard)")
+        return
+    # sign of the returned value
+    neg = any(isinstance(r.value, ast.UnaryOp) and isinstance(r.value.op, ast.USub)
+              for r in walk_local(eu.node) if isinstance(r, ast.Return) and r.value is not None)
+    cneg = any(isinstance(r.value, ast.UnaryOp) and isinstance(r.value.op, ast.USub)
+               for r in walk_local(cu.node) if isinstance(r, ast.Return) and r.value is not None)
+    for label in sorted(ci):
+        c, e = _tau_expr(ci[label]), _tau_expr(ei[label])
+        if c is None or e is None:
+            raise AnalysisError(f"L5: integrand of branch {label} is outside the expression class "
+                                f"(sums/products of exp(a + b*tau), powers of w)")
+        d2 = e.d_tau().d_tau()
+        lhs = (-d2 if neg else d2)
+        rhs = (-c if cneg else c)
+        diff = lhs - rhs
+        # eta(0) = 0 and eta'(0) = 0 (needed by the triangle formula and for additive tiling)
+        for order, ex in ((0, e), (1, e.d_tau())):
+            at0 = Poly()
+            for (k, n), cf in ex.terms.items():
+                if n == 0:
+                    at0 = at0 + cf
+            at0 = _reduce_i(_clear_inv(at0, _INV_TABLE))
+            chk.add("L5", eu, f"branch {label}: eta kernel {'value' if order == 0 else 'slope'} "
+                    f"at tau = 0", not at0.terms,
+                    "vanishes" if not at0.terms else
+                    f"= {at0} (times a common denominator): eta(0) = eta'(0) = 0 is violated, so "
+                    f"cell integrals no longer tile additively", ei[label])
+        chk.add("L5", eu, f"branch {label}: d^2/dtau^2 of the eta kernel vs correlation integrand",
+                diff.is_zero(),
+                "eta'' = C" if diff.is_zero() else
+                f"eta'' - C = {diff}: the double-integral kernel is not the second antiderivative "
+                f"of the correlation function in this branch", ei[label])
+
+
 def run(prog: Program, chk: Check) -> None:
     chk.explanation = (
         "Decides, by a sibling cross-check, that CustomSD's closed-form cell integrals are the "
@@ -401,11 +652,13 @@ def run(prog: Program, chk: Check) -> None:
         "propagation at the callers), that all shape names agree (L2), that Matsubara integrals "
         "pass through .real on every path (L3), and registry / sibling agreement of the two "
         "integrand builders (L4).")
-    chk.not_decided = ("The kernel eta itself, C(-tau) = C(tau)*, positivity, closed forms at "
-                       "T = 0, quadrature error.")
+    chk.not_decided = ("The value of the integrals (quadrature error, closed forms at T = 0), "
+                       "C(-tau) = C(tau)* and positivity; L5 decides only that eta'' = C holds "
+                       "between the two integrand builders, not that either is the right physics.")
     chk.assumptions = ["scipy.integrate.dblquad(func, a, b, gfun, hfun) integrates y from "
                        "gfun(x) to hfun(x) for x in [a, b]",
                        "eta'' = C and eta(0) = eta'(0) = 0 (kernel (e^{-iwt} - 1 + iwt)/w^2)"]
     l1_l2(prog, chk)
     l3(prog, chk)
     l4(prog, chk)
+    l5(prog, chk)
